@@ -4,7 +4,9 @@ from . import wire
 
 NAMES = ["a", "b", "c", "a", "b", "x", "", "0", "1", "-1", "a b", "'", '"', "\\", "é", "\U0001F600", "\U0001F600x", "a\U0001F600\U0001F600", "\n", "\u0000", "\x7f", " ", "length", "*", "ab", "_x", "A",
          # names that Unicode normalisation (NFC / NFKC) would rewrite: a query text must be taken as written, code point by code point
-         "e\u0301", "\u212b", "\u1100\u1161", "\u2126"]
+         "e\u0301", "\u212b", "\u1100\u1161", "\u2126",
+         # ... and names that case folding, stripping, compatibility normalisation or a lossy re-encoding would change or conflate
+         " a", "a ", "\u00df", "\u0130", "\ufb01", "\uff41", "a\u200b", "\ufeffa", "\u00e9".upper()]
 SIMPLE_NAMES = ["a", "b", "c", "d", "x"]
 LIM = (1 << 53) - 1
 BUILTINS = [("length", [1], 1, [0]), ("count", [3], 1, [1]), ("match", [1, 1], 2, [3]), ("search", [1, 1], 2, [4]), ("value", [3], 1, [2])]
